@@ -168,6 +168,50 @@ Proof.
 Qed.
 End RollInnerWf.
 
+(* The same end-to-end statement for the other heads: after ANY outer trace, the inner machine inside the
+   composite is in exactly the state it reaches when run alone on the head's inner trace. *)
+Lemma feed_app_fst' {V} (M : machine V) a b s0 : fst (feed M s0 (a ++ b)) = fst (feed M (fst (feed M s0 a)) b).
+Proof.
+  rewrite (feed_app V M a b s0). destruct (feed M s0 a) as [s1 o1]. cbn [fst].
+  destruct (feed M s1 b) as [s2 o2]. reflexivity.
+Qed.
+Lemma feed_cons_fst {V} (M : machine V) e t s0 : fst (feed M s0 (e :: t)) = fst (feed M (fst (step M s0 e)) t).
+Proof. cbn [feed]. destruct (step M s0 e) as [s1 o1]. cbn [fst]. destruct (feed M s1 t) as [s2 o2]. reflexivity. Qed.
+Lemma seg_run_feeds (V Sg : Type) (sg0 : Sg) (nx : Sg -> V -> Sg * list (act V)) (op_ : Sg -> bool) (I : machine V) :
+  forall t slots si,
+  snd (fst (feed (seg_m V Sg sg0 nx op_ I) (slots, si) t)) = fst (feed I si (inner_trace V Sg sg0 nx op_ slots t)).
+Proof.
+  induction t as [|e t IH]; intros slots si; [reflexivity|].
+  rewrite feed_cons_fst, (seg_m_feeds V Sg sg0 nx op_ I slots si e), IH.
+  cbn [inner_trace]. now rewrite feed_app_fst'.
+Qed.
+Lemma group_run_feeds (V G : Type) (geq : forall a b : G, {a = b} + {a <> b}) (km : V -> G) (I : machine V) :
+  forall t st si,
+  snd (fst (feed (group_m V G geq km I) (st, si) t)) = fst (feed I si (group_inner_trace V G geq km st t)).
+Proof.
+  induction t as [|e t IH]; intros st si; [reflexivity|].
+  rewrite feed_cons_fst, (group_m_feeds V G geq km I st si e), IH.
+  cbn [group_inner_trace]. now rewrite feed_app_fst'.
+Qed.
+(* specials never reach the machine under a bypass: running it on t is running it on plain_evs t *)
+Lemma bypass_run_plain (M : machine item) : forall t s0,
+  fst (feed (bypass_m item special M) s0 t) = fst (feed M s0 (filter (fun e => match e with Next _ x => negb (special x) | _ => true end) t)).
+Proof.
+  induction t as [|e t IH]; intros s0; [reflexivity|].
+  cbn [feed filter]. destruct e as [k|k x|k]; cbn [step bypass_m].
+  - cbn [feed]. destruct (step M s0 (Create k)) as [s1 o1]. specialize (IH s1).
+    destruct (feed (bypass_m item special M) s1 t) as [s2 o2]. cbn [fst] in *. rewrite IH.
+    destruct (feed M s1 _) as [s3 o3]. reflexivity.
+  - destruct (special x); cbn [negb].
+    + specialize (IH s0). destruct (feed (bypass_m item special M) s0 t) as [s2 o2]. cbn [fst] in *. exact IH.
+    + cbn [feed]. destruct (step M s0 (Next k x)) as [s1 o1]. specialize (IH s1).
+      destruct (feed (bypass_m item special M) s1 t) as [s2 o2]. cbn [fst] in *. rewrite IH.
+      destruct (feed M s1 _) as [s3 o3]. reflexivity.
+  - cbn [feed]. destruct (step M s0 (Done k)) as [s1 o1]. specialize (IH s1).
+    destruct (feed (bypass_m item special M) s1 t) as [s2 o2]. cbn [fst] in *. rewrite IH.
+    destruct (feed M s1 _) as [s3 o3]. reflexivity.
+Qed.
+
 (* special items (mux errors, fatal, dead letters) bypass every head and every tee *)
 Definition plain_evs (t : list iev) : list iev :=
   filter (fun e => match e with Next _ x => negb (special x) | _ => true end) t.
